@@ -36,8 +36,17 @@ def pure_history(make, values, check_text=False):
             return False
         if snapshot(el) != s0:
             return False
-    if not (el == make()):
+    fresh = make()
+    if not (el == fresh):
         return False
+    # an unchanged tree behaves like a fresh copy: the last value gets the verdict a never-used copy gives
+    # (state hidden outside the public attributes - on classes, in caches - shows here)
+    if values:
+        v = values[-1]
+        a_used, r_used = verdict(el, jcopy(v))
+        a_new, r_new = verdict(fresh, jcopy(v))
+        if a_used != a_new or (a_used and not result_eq(r_used, r_new)):
+            return False
     if serialize_json(el) != j0:
         return False
     if check_text and (repr(el), serialize_python(el)) != t0:
@@ -91,6 +100,22 @@ def _child(mn):
     return C
 
 
+def _base_and_child(mn):
+    """one tree holding a base model and a subclass of it in different positions"""
+    from vf.common import Object, Element, Property, Integer
+
+    P = Object.inline("P", properties={"a": Property(Integer(minimum=mn), required=True)}, additionalProperties=False)
+
+    class C(P):  # type: ignore
+        ab = Property(Integer(), required=True)
+
+    return Element(properties={"p": Property(P), "c": Property(C)})
+
+
+TEMPLATES["base_and_child_branches"] = ("mn: int", [], "_base_and_child(mn)", "Dict[str, Dict[str, int]]",
+                                        "len({0}) <= 1 and all(k in ('p', 'c') for k in {0}) and all(len(d) <= 2 and all(k in ('a', 'ab', 'b') for k in d) for d in {0}.values())")
+
+
 def harnesses(ctx) -> List[H]:
     hs: List[H] = []
     for name, (hargs, hpre, make, vt, vpre) in TEMPLATES.items():
@@ -126,6 +151,11 @@ return pure_history(make, [v1], True)
 """
         hs.append(mk(f"c08_{name}_text", f"v1: {vt}", [vpre.format("v1")], body,
                      tier="quick", timeout=300, group="text", covers="repr/serialize_python unchanged; holes concrete (=2)"))
+    hs.append(mk("c08_base_then_child", "mn: int, h: bool, x: int, d: Dict[str, int]", ["len(d) <= 2", "all(k in ('a', 'ab', 'b') for k in d)"], """
+def make():
+    return _base_and_child(mn)
+return pure_history(make, [{"p": ({"a": x} if h else {})}, {"c": d}])
+""", timeout=300, group="history", covers="a value for the base-model branch, then any value for the subclass branch of the same tree; the used tree must give the fresh tree's verdict"))
     return hs
 
 
